@@ -38,6 +38,12 @@ def cases(tier, seed):
             yield ('C', t)
     for t in _spines(['x', 'y', 'z']):
         yield ('C', t)
+    # names that differ only in letter case
+    case_trees = sp.trees(2, ['x', 'X']) if tier == 'thorough' else sp.trees(2, ['x', 'X'])[::4]
+    for t in case_trees:
+        yield ('C', t)
+    for t in cm.k2_subset(('x', 'X', 'y')):
+        yield ('C', t)
     for t in list(cm.arith_trees()) + list(cm.onearg_aggregate_trees()):
         yield ('C', t)
 
@@ -61,14 +67,17 @@ def describe(case):
 
 def reduce(case):
     seen = set()
-    for t in sh.tree_reductions(case[1]):
-        t = sh.tree_normalize_vars(t)
+    keepcase = 'X' in sh.tree_names(case[1])
+    for t in sh.tree_reductions(case[1], ('x', 'X', 'y') if keepcase else ('x', 'y', 'z')):
+        t = t if keepcase else sh.tree_normalize_vars(t)
         if t not in seen:
             seen.add(t)
             yield ('C', t)
 
 
 def normalize(case):
+    if 'X' in sh.tree_names(case[1]):
+        return case
     return ('C', sh.tree_normalize_vars(case[1]))
 
 
